@@ -931,7 +931,9 @@ static void enumerate_frame(FrameBase& f) {
         // terms and rules that take part in some S/R cell (and, for the diagnostics runs, in some R/R cell)
         bool tin[ref::MAXT] = {}, rin[ref::MAXR] = {};
         for (auto& st : can.st) for (int t = 0; t < g.nterms(); ++t) {
-            if (st.cell[t].sr) { if (t < g.T) tin[t] = true; int r = st.cell[t].red[0]; rin[r] = true; int lt = g.last_term(r); if (lt >= 0 && lt < g.T) tin[lt] = true; }
+            if (st.cell[t].sr) { if (t < g.T) tin[t] = true; int r = st.cell[t].red[0]; rin[r] = true; int lt = g.last_term(r); if (lt >= 0 && lt < g.T) tin[lt] = true;
+                // when the rule's last term is the error symbol (precedence 0, no associativity) the ordinary terms before it must NOT matter: vary them too
+                if (lt == g.err()) for (int j = 0; j < g.n[r]; ++j) if (Gram::is_term(g.rhs[r][j]) && Gram::term_of(g.rhs[r][j]) < g.T) tin[Gram::term_of(g.rhs[r][j])] = true; }
             if (rr_too && st.cell[t].rr) for (int k = 0; k < st.cell[t].nred && k < 4; ++k) { int r = st.cell[t].red[k]; if (r < g.R) { rin[r] = true; int lt = g.last_term(r); if (lt >= 0 && lt < g.T) tin[lt] = true; } }
         }
         std::vector<int> tl, rl; for (int t = 0; t < g.T; ++t) if (tin[t]) tl.push_back(t); for (int r = 0; r < g.R; ++r) if (rin[r]) rl.push_back(r);
